@@ -410,10 +410,12 @@ def backend_shape(e: Engine, cq: str):
         mc = common.merged_class(e, cq)
         for mname in sorted(common.owner_closure(e, cq, [root])):
             m = mc.methods.get(mname)
+            # (closures the method defines and hands to a helper are part
+            # of it)
             if m is not None and mname not in fnames and any(
                     isinstance(n, ast.Call) and
                     isinstance(n.func, ast.Attribute) and
-                    n.func.attr in fnames for n in walk_own(m.node)):
+                    n.func.attr in fnames for n in ast.walk(m.node)):
                 return True
         return False
     calls_filter = filters('get')
